@@ -45,7 +45,7 @@ package credential
 
 // ---- C01: presenter == subject ----
 //@ func PresenterIsCredentialSubject
-//@   prop C01 C19
+//@   prop C01 C02 C19
 //@   safety
 //@   ensures [signer-resolved] isNilIface(result.1) ==> isNilIface(ret(call PresentationSigner #1).1) && arg(call PresentationSigner #1, 0) == vp
 //@   ensures [subject-resolved] isNilIface(result.1) ==> isNilIface(ret(call ResolveSubjectDID #1).1) && arg(call ResolveSubjectDID #1, 0) == vp.VerifiableCredential
